@@ -17,7 +17,7 @@ from symcore import HarnessError, Engine
 
 PROP = 'C04'
 IDS_QUICK = ['octets', 'octets-range', 'bits', 'bits-named', 'ia5', 'utf8', 'seq-basic', 'seq-opt', 'seq-ext',
-             'set-basic', 'set-tags', 'choice', 'choice-ext', 'seqof', 'setof', 'tag-explicit', 'tag-implicit',
+             'set-basic', 'set-opt-middle', 'set-tags', 'choice', 'choice-ext', 'seqof', 'setof', 'tag-explicit', 'tag-implicit',
              'tag-app', 'tag-choice', 'combo-str-seq', 'combo-set-choice', 'int', 'bool', 'null', 'enum', 'oid']
 IDS_MORE = ['combo-uper6', 'combo-choice-seq', 'combo-ext-nest', 'combo-bits-default', 'tag-big', 'bmp', 'universal',
             'general', 'combo-recursive', 'combo-rec-choice', 'seq-ext-group', 'combo-depth3', 'seq-ext-mixed']
@@ -122,7 +122,7 @@ def main(argv=None):
         bounds=dict(templates=len(jobs), rewrites_per_variant=jobs[0]['rewrites'] if jobs else 0,
                     forms='per node: minimal / long-form / zero-padded definite length, indefinite length + EOC '
                           '(constructed nodes); per string or bit string: primitive / constructed with a symbolic '
-                          'cut point / first segment nested constructed; per SET: any of <= 6 permutations',
+                          'cut point / first segment nested constructed; per SET: every permutation (<= 4 components) / 6 characteristic ones',
                     values='content octets fully symbolic; strings <= 2/3 characters, lists <= 1/2'),
         assumptions=['the TLV tree is built by the independent X.690 model (models/x690.py), not taken from the '
                      'library encoder; form choices are solver variables explored by forking'],
